@@ -29,7 +29,8 @@ VARIABLES l,       \* index of the next event to consume
 
 tvars == <<l, stack>>
 
-Enforced(p) == PROP = "ALL" \/ PROP = p
+\* "ALL" = every conjunct except C17's (its field is only filled when the harness is asked to)
+Enforced(p) == (PROP = "ALL" /\ p # "C17") \/ PROP = p
 
 \* a failing conjunct reports itself and is false
 Chk(p, what, cond) ==
@@ -209,7 +210,16 @@ C15_State(e, cs) ==
   /\ Chk("C15", "re-parsed start-of-turn state has a different hash",
          (e.ph = 1 /\ e.st = 0) => e.rp.th = e.th)
 
+\* C17 on reached states: the harness compared the state's hash with the from-scratch hashes of
+\* all states differing from it in exactly one hashed feature (64 x 12 cell changes, side, 3 steps,
+\* 640 statuses); e.c17 lists the neighbours that collide
+C17_State(e, cs) ==
+  /\ Chk("C17", "a reached state has the same transposition hash as a state differing in one feature: "
+               \o ToString(e.c17), e.c17 = <<>>)
+  /\ CountIf(22, e.c17n = 1)
+
 StateConjuncts(e, cs) ==
+  /\ (Enforced("C17") => C17_State(e, cs))
   /\ (Enforced("C01") => C01_State(e, cs))
   /\ (Enforced("C04") => C04_State(e, cs))
   /\ (Enforced("C06") => C06_State(e, cs))
@@ -236,7 +246,7 @@ C03_Trans(pre, a, n, e) ==
     /\ Chk("C03", "side, step or move number differ from the turn structure",
            e.ph = 1 /\ e.s = n.s /\ e.st = n.st /\ e.mn = n.mn)
     /\ Chk("C03", "turn end does not reset the per-turn record",
-           n.st = 0 => (e.pp = NoPP /\ e.prev = <<>>))
+           n.st = 0 => (e.pp = NoPP /\ e.prev = <<>> /\ e.tt = 0))
     /\ Chk("C03", "step counter out of range or per-turn record of the wrong length",
            e.st \in 0..3 /\ Len(e.prev) = e.st)
     /\ CountIf(14, a = PassAct) /\ CountIf(15, IsMove(a) /\ pre.st = 3)
@@ -339,7 +349,8 @@ TraceThreadDigest ==
               /\ Chk("C18", "a thread panicked while expanding a shared state: " \o e.dg,
                      SubSeq(e.dg, 1, 6) # "panic:")
               /\ Chk("C18", "concurrent expansion differs from the sequential expansion of the same state",
-                     e.a \in DOMAIN pre.seen /\ pre.seen[e.a] = e.dg))
+                     IF e.a = <<-2, 0>> THEN e.dg = pre.ldg    \* the thread observed the shared state itself
+                     ELSE e.a \in DOMAIN pre.seen /\ pre.seen[e.a] = e.dg))
         /\ TLCSet(20, TLCGet(20) + 1)
         /\ stack' = base
   /\ l' = l + 1
